@@ -150,10 +150,19 @@ CLAIMED = {
     ),
 }
 
+CLAIMED["C20"] = (
+    "symbolic execution of the real Project.__init__ (per-file try/except), parser and correlate() on symbolic projects with one extra file that is a symbolically truncated / spliced valid source or a malformed construct, decided by z3",
+    "Containment half of C20: for every truncation point and spliced-out statement of a valid module that clashes with the names of the valid files, and every entry "
+    "of a table of malformed constructs, with the extra file read first, in the middle or last: whenever FORD rejects the file (default settings) it is named in a "
+    "diagnostic, none of its entities is registered, and the other files' ordered lists, names, identifiers and resolved USE/call/type references equal those of the "
+    "project without it.  Every explored path terminates.  Undecodable bytes, termination on arbitrary bytes and HTML are outside.",
+    "Trusted: z3, CV evaluator; FortranReader stubbed by the statement lists (reader-level corruption is outside); files FORD accepts without raising carry no requirement.",
+    "DESIGN.md §11.8",
+)
+
 NOT_APPLICABLE = {
     "C17": "get_page_tree is a recursive walk over a real directory interleaved with python-markdown; with file system, pathlib and markdown stubbed nothing of the property's substance remains (DESIGN.md §7)",
     "C19": "property is about file-system effects of shutil/pathlib/graphviz calls and injected I/O failures; not a function of symbolic data (DESIGN.md §7)",
-    "C20": "containment is exception flow across a whole multi-file run plus process-level termination on arbitrary bytes; loop termination of the line-level scanners is discharged as unwinding assertions inside C01/C02/C08 but does not decide C20 (DESIGN.md §7)",
 }
 NOT_YET = "obligations for this property are not built yet in this revision (see DESIGN.md §9 build order); not claimed"
 
